@@ -15,6 +15,7 @@ Definition label_of (t : thread local pers op result) : nat :=
   | Some (LInsPub _ _ _ _) => 36
   | Some (LInsOwn _ _ _ _ _) => 37
   | Some (LInsLink _ _ _ _ _) => 39
+  | Some (LInsCheck _ _ _ _ _) => 38
   | Some (LSdLoad _ _ _ _) => 40
   | Some (LSdCas _ _ _ _ _) => 41
   | Some LItFirst => 42
